@@ -22,6 +22,9 @@ if ids:
 props = sorted(f[:-3] for f in os.listdir(os.path.join(V, "rules")) if re.match(r"C\d\d\.py$", f))
 results = {}
 for mid, patch, prop, metap in items:
+    if metap and json.load(open(metap)).get("stale_since"):
+        print(mid, "STALE (skipped: written against an older tree, see meta.json)")
+        continue
     shutil.rmtree(S, ignore_errors=True)
     os.makedirs(S + "/ev")
     subprocess.run(["rsync", "-a", "--exclude", "target", "--exclude", ".git", "/repo/", S + "/repo/"], check=True)
